@@ -116,6 +116,7 @@ type checkStats struct {
 	leaderCompared  int64
 	refusedSnapshot int
 	refusedLog      int
+	resumedReads    int
 	spotReads       int
 }
 
@@ -123,7 +124,7 @@ type checkStats struct {
 // log range readable end to end, contiguous, byte == PRF(id, offset); offered snapshot complete and
 // == PRF(id, left, i); and (when the leader holds the same id) byte-identical to the leader's copy.
 // ids = every replication id used in the case (to tell whose bytes a mismatching run is).
-func checkFollower(fc, lc syncer.Channel, ids []string, rng *rand.Rand, ctx string, st *checkStats) (chanState, []finding) {
+func checkFollower(fc, lc syncer.Channel, ids []string, rng *rand.Rand, ctx string, quiescent bool, st *checkStats) (chanState, []finding) {
 	var out []finding
 	s := stateOf(fc)
 	if s.ID == "" {
@@ -145,7 +146,23 @@ func checkFollower(fc, lc syncer.Channel, ids []string, rng *rand.Rand, ctx stri
 
 	if s.Left >= 0 && s.Right > s.Left {
 		n := s.Right - s.Left
+		// read the whole declared range; a reader that stops making progress although the next
+		// offset is covered by a stored segment is resumed at that offset (and counted): only the
+		// bytes served and the structure decide, never the clock
 		res := readAt(fc, cur, s.Left, n)
+		for res.openErr == nil && res.isAof && int64(len(res.data)) < n {
+			p := s.Left + int64(len(res.data))
+			if probeGap(fc, s, p, map[string]any{}) != nil {
+				break
+			}
+			more := readAt(fc, cur, p, s.Right-p)
+			if more.openErr != nil || !more.isAof || len(more.data) == 0 {
+				break
+			}
+			st.resumedReads++
+			res.data = append(res.data, more.data...)
+			res.err, res.stalled = more.err, more.stalled
+		}
 		switch {
 		case res.openErr != nil:
 			st.refusedLog++
@@ -288,9 +305,12 @@ func checkFollower(fc, lc syncer.Channel, ids []string, rng *rand.Rand, ctx stri
 				if res.err != nil {
 					d["read_error"] = res.err.Error()
 				}
-				if res.stalled {
+				if res.stalled && !quiescent {
 					out = append(out, finding{Harness: true, Sig: "snapshot-read-stalled", What: ctx + ": snapshot read stalled", Detail: d})
 				} else {
+					// (after Run() has returned nothing writes the snapshot any more: a reader that
+					// stops short of the declared size, by error or by waiting for bytes that cannot
+					// come, shows the same fact — fewer bytes are held than are offered)
 					out = append(out, finding{Sig: "incomplete-snapshot-offered", What: fmt.Sprintf(
 						"GetRdb offers snapshot (%d,%d) of id %.8s and a reader serves it, but only %d bytes of it are held", s.RdbLeft, s.RdbSize, cur, len(res.data)), Detail: d})
 				}
@@ -304,6 +324,9 @@ func checkFollower(fc, lc syncer.Channel, ids []string, rng *rand.Rand, ctx stri
 // segment glued on)?  Candidates: any offset up to 64 MiB ahead aligned on what a leader could send is
 // unknowable, so try the distances to the declared right edge and a window of small shifts.
 func shiftOf(data []byte, at int, key uint64, off int64, s chanState) int64 {
+	if len(data)-at < 8 {
+		return 0
+	}
 	for sh := int64(1); sh <= 1<<16; sh++ {
 		if prfByte(key, off+sh) == data[at] && matchesAt(data, at, key, off+sh, 24) {
 			return sh
